@@ -140,6 +140,15 @@ add("C14", "univ", "exploration",
     "Trusts go/types.AssignableTo and go/constant; one hand-built known finding (unnamed intermediate slice) is replayed and reported as KNOWN-FINDING.",
     "DESIGN.md section 3, C14")
 
+add("C11", "lit", "exploration",
+    "property-based testing (rapid): generated type expressions built twice (go/types over loaded fixtures, reflect over compiled fixtures), rendered, re-type-checked with go/types and compared by identity",
+    "Closed type expressions over predeclared types, error, any, 43 fixture types in three packages (clashing package names and simple names), nested generic "
+    "instantiations, pointers, slices, arrays, maps, channels and structs with tags/embedded fields are rendered by snippet.ID / %T for the type's own package, another "
+    "package, or a tracker pre-seeded with clashing names; `var X <text>` is type-checked in the target package with exactly the registered imports and X's type must be "
+    "identical to the original (types.Identical; own package: fully qualified TypeString of the re-checked package); local names unqualified, foreign ones under the tracker's name.",
+    "go/types is the reference; fixture packages are loaded from source once per process.",
+    "DESIGN.md section 3, C11")
+
 ALL = ["C%02d" % i for i in range(1, 21)]
 
 def main():
